@@ -201,6 +201,33 @@ func structuralMutants(seed p7seed, attacker *keys.Key, attackerCertRaw, attacke
 			t2.encap.Kids[1].Kids = append(t2.encap.Kids[1].Kids, extra)
 			emit("content-element-appended/"+variant, "", t2)
 		}
+		// the content element rewritten as a constructed OCTET STRING whose first segment is the
+		// signed data and whose second is something else
+		if orig := base.encap.Kids[1].Kids[0]; orig.Kids == nil && orig.Tag == 0x04 {
+			for vi, extra := range []*refder.Tree{{Tag: 0x04, Prim: []byte("appended segment")}, {Tag: 0x30, Kids: []*refder.Tree{{Tag: 0x02, Prim: []byte{1}}}}, {Tag: 0x05}} {
+				tc := base.clone()
+				seg := &refder.Tree{Tag: 0x04, Prim: append([]byte(nil), orig.Prim...)}
+				tc.encap.Kids[1].Kids[0] = &refder.Tree{Tag: 0x24, Kids: []*refder.Tree{seg, extra}}
+				emit(fmt.Sprintf("content-as-constructed-octet-string+extra-segment/%d", vi), "", tc)
+			}
+		}
+		// Authenticode: the SpcLink inside SpcPeImageData as the moniker choice with class ids of several lengths
+		if c0 := base.encap.Kids[1].Kids[0]; len(c0.Kids) >= 2 && len(c0.Kids[0].Kids) >= 2 && len(c0.Kids[0].Kids[1].Kids) >= 2 {
+			for _, n := range []int{0, 1, 15, 16, 17, 64} {
+				tm := base.clone()
+				pe := tm.encap.Kids[1].Kids[0].Kids[0].Kids[1]
+				if len(pe.Kids) >= 2 && pe.Kids[1].Tag == 0xA0 {
+					pe.Kids[1].Kids = []*refder.Tree{{Tag: 0xA1, Kids: []*refder.Tree{{Tag: 0x04, Prim: bytes.Repeat([]byte{0xA6}, n)}, {Tag: 0x04, Prim: []byte("serialized")}}}}
+					emit(fmt.Sprintf("spc-link-moniker/classid-%d", n), "", tm)
+				}
+			}
+			tu := base.clone()
+			pe := tu.encap.Kids[1].Kids[0].Kids[0].Kids[1]
+			if len(pe.Kids) >= 2 && pe.Kids[1].Tag == 0xA0 {
+				pe.Kids[1].Kids = []*refder.Tree{{Tag: 0x80, Prim: []byte("https://example.invalid/x")}}
+				emit("spc-link-url", "", tu)
+			}
+		}
 		// Spc digest rewritten inside the content (Authenticode)
 		t := base.clone()
 		c := t.encap.Kids[1].Kids[0]
@@ -306,6 +333,18 @@ func structuralMutants(seed p7seed, attacker *keys.Key, attackerCertRaw, attacke
 		s2 := t2.signer(0)
 		s2.ias.Kids[1].Prim = append([]byte{0x01}, s2.ias.Kids[1].Prim...)
 		emit("signer-serial-changed", "", t2)
+		// the same magnitude with the sign octet dropped (a negative number) or doubled
+		if ser := base.signer(0).ias.Kids[1].Prim; len(ser) > 1 && ser[0] == 0 && ser[1]&0x80 != 0 {
+			t3 := base.clone()
+			t3.signer(0).ias.Kids[1].Prim = append([]byte(nil), ser[1:]...)
+			emit("signer-serial-sign-octet-dropped", "", t3)
+		}
+		{
+			t4 := base.clone()
+			s4 := t4.signer(0)
+			s4.ias.Kids[1].Prim = append([]byte{0}, s4.ias.Kids[1].Prim...)
+			emit("signer-serial-zero-octet-prepended", "", t4)
+		}
 	}
 	// --- signature octets
 	{
@@ -400,6 +439,13 @@ func structuralMutants(seed p7seed, attacker *keys.Key, attackerCertRaw, attacke
 			tv2.Tag = 0x18
 			tv2.Prim = append([]byte("20"), tv2.Prim...)
 			emit("signingTime-as-GeneralizedTime", "", t2)
+			// other legal and near-legal UTCTime spellings: offset forms (also across the 1950/2049
+			// window of two-digit years), no seconds, leap second, month 13, empty
+			for _, ts := range []string{"500101000000+0100", "491231233000-0100", "2512311200+0530", "251231120000-1200", "9912312359Z", "251231235960Z", "251331120000Z", "", "0001010000Z", "500101000000Z", "491231235959Z"} {
+				t3 := base.clone()
+				t3.signer(0).attrs.Kids[ti].Kids[1].Kids[0].Prim = []byte(ts)
+				emit("signingTime-spelling/"+ts, "", t3)
+			}
 		}
 		if ci := findAttr(sp.attrs, refp7.OIDContentType); ci >= 0 {
 			t := base.clone()
